@@ -25,6 +25,7 @@ import (
 	"sort"
 	"strings"
 	"sync"
+	"sync/atomic"
 	"time"
 
 	"github.com/libsv/go-bk/bec"
@@ -36,6 +37,7 @@ import (
 	"github.com/libsv/go-bt/v2/unlocker"
 
 	"verif/harness/common"
+	"verif/harness/interpgen"
 )
 
 type KV struct {
@@ -52,6 +54,7 @@ type History struct {
 	Init       []KV     `json:"init"`
 	Stored     []KV     `json:"stored"`
 	Reads      []KV     `json:"reads"`
+	Rejected   []KV     `json:"rejected,omitempty"` // what calls that returned an error carried (and no successful call stored)
 	Bad        []string `json:"bad,omitempty"`
 	Race       string   `json:"race,omitempty"`
 	Deadlock   bool     `json:"deadlock,omitempty"`
@@ -72,6 +75,8 @@ type EngineRound struct {
 	Shared      int      `json:"shared_script_objects"` // locking script objects named by more than one transaction of the round
 	Differs     []string `json:"differs,omitempty"`     // the jobs whose concurrent verdict is not the sequential one, spelled out
 	Validations int64    `json:"validations,omitempty"` // engine-hammer: how many validations ran concurrently
+	// option values (WithFlags words, WithAfterGenesis, WithForkID, WithP2SH, WithDebugger) built once and used by several jobs
+	OptionValues int `json:"shared_option_values,omitempty"`
 }
 
 type Result struct {
@@ -232,17 +237,45 @@ func feeID(f *bt.Fee) uint64 {
 	return torn
 }
 
+// the label of a fee (its FeeType field) as a number, and the WHOLE value of a fee — numbers and label — as one number:
+// a *Fee a reader gets from (quote, fee type) has to be, field by field, a fee that was stored THERE
+func typeCode(ft bt.FeeType) uint64 {
+	switch ft {
+	case "":
+		return 0
+	case bt.FeeTypeStandard:
+		return 1
+	case bt.FeeTypeData:
+		return 2
+	}
+	return 3
+}
+func fullOf(id uint64, label bt.FeeType) uint64 { return id*4 + typeCode(label) }
+func feeFull(f *bt.Fee) uint64 {
+	if f == nil {
+		return absent
+	}
+	return fullOf(feeID(f), f.FeeType)
+}
+func showFull(v uint64) string {
+	if v == absent {
+		return "no entry"
+	}
+	return fmt.Sprintf("fee %d labelled %q", v/4, []string{"", "standard", "data", "<other>"}[v%4])
+}
+
 type feeJSON struct {
 	MiningFee bt.FeeUnit `json:"miningFee"`
 	RelayFee  bt.FeeUnit `json:"relayFee"`
 }
 
 type recorder struct {
-	mu     sync.Mutex
-	stored map[string]map[uint64]bool
-	reads  []KV
-	bad    []string
-	kinds  map[string]int
+	mu       sync.Mutex
+	stored   map[string]map[uint64]bool
+	rejected map[string]map[uint64]string // what calls that returned an ERROR carried: location -> value -> the call
+	reads    []KV
+	bad      []string
+	kinds    map[string]int
 }
 
 func (rc *recorder) store(k string, v uint64) {
@@ -251,6 +284,14 @@ func (rc *recorder) store(k string, v uint64) {
 		rc.stored[k] = map[uint64]bool{}
 	}
 	rc.stored[k][v] = true
+	rc.mu.Unlock()
+}
+func (rc *recorder) reject(k string, v uint64, call string) {
+	rc.mu.Lock()
+	if rc.rejected[k] == nil {
+		rc.rejected[k] = map[uint64]string{}
+	}
+	rc.rejected[k][v] = call
 	rc.mu.Unlock()
 }
 func (rc *recorder) read(k string, v uint64) {
@@ -272,6 +313,16 @@ func (rc *recorder) kind(k string) {
 var miners = []string{"m0", "m1", "m2"}
 var feeTypes = []bt.FeeType{bt.FeeTypeStandard, bt.FeeTypeData}
 
+// the tags main.go turns into violation sites
+const (
+	tagFailedWrite = "[failed-write] "
+	tagArgument    = "[argument] "
+)
+
+func feeDoc(id uint64) string {
+	return fmt.Sprintf(`{"miningFee":{"satoshis":%d,"bytes":%d},"relayFee":{"satoshis":%d,"bytes":%d}}`, id, id, id, id)
+}
+
 func feeHistory(seed uint64) History {
 	r := common.NewRand(seed)
 	g := 2 + r.Intn(15)
@@ -281,37 +332,66 @@ func feeHistory(seed uint64) History {
 	opsPer := 8 + r.Intn(40)
 	h := History{Seed: seed, Goroutines: g, Procs: procs}
 
-	// shared state: one FeeQuotes, nq FeeQuote objects known to the harness
+	// shared state: TWO FeeQuotes (named Q and R below), nq FeeQuote objects known to the harness and reachable through
+	// both of them (one *FeeQuote under several miners of several FeeQuotes), and a few *Fee VALUES that the callers keep
+	// and hand to AddQuote / UpdateMinerFees again and again: for several quotes, under several fee types
 	nq := 1 + r.Intn(3)
-	fqs := bt.NewFeeQuotes("m0")
+	fqsNames := []string{"Q", "R"}
+	fqs := []*bt.FeeQuotes{bt.NewFeeQuotes("m0"), bt.NewFeeQuotes("m0")}
 	quotes := make([]*bt.FeeQuote, nq)
 	known := map[*bt.FeeQuote]int{}
-	rc := &recorder{stored: map[string]map[uint64]bool{}, kinds: map[string]int{}}
+	rc := &recorder{stored: map[string]map[uint64]bool{}, rejected: map[string]map[uint64]string{}, kinds: map[string]int{}}
 	init := map[string]uint64{}
 	for k := range quotes {
 		quotes[k] = bt.NewFeeQuote()
 		known[quotes[k]] = k
 		for _, ft := range feeTypes {
 			init[fmt.Sprintf("q%d.fees.%s", k, ft)] = defaultID
+			init[fmt.Sprintf("q%d.label.%s", k, ft)] = fullOf(defaultID, ft)
 		}
 		init[fmt.Sprintf("q%d.expiry", k)] = uint64(quotes[k].Expiry().Unix())
 		init[fmt.Sprintf("q%d.expired", k)] = 1
 	}
-	for _, ft := range feeTypes {
-		init["anon.fees."+string(ft)] = defaultID
+	// the anonymous quotes (made by the library) are not told apart: anonQ / anonR stand for all of them in one FeeQuotes
+	for _, qn := range fqsNames {
+		for _, ft := range feeTypes {
+			init["anon"+qn+".fees."+string(ft)] = defaultID
+			init["anon"+qn+".label."+string(ft)] = fullOf(defaultID, ft)
+		}
+		init[qn+".quotes.m0"] = anonymous
+		init[qn+".quotes.m1"] = absent
+		init[qn+".quotes.m2"] = absent
 	}
-	init["Q.quotes.m0"] = anonymous
-	init["Q.quotes.m1"] = absent
-	init["Q.quotes.m2"] = absent
-	slot := map[string]map[string]bool{"m0": {"anon": true}, "m1": {}, "m2": {}} // objects ever put into a miner slot
+	// objects ever put into a miner slot, per FeeQuotes
+	slot := []map[string]map[string]bool{
+		{"m0": {"anonQ": true}, "m1": {}, "m2": {}},
+		{"m0": {"anonR": true}, "m1": {}, "m2": {}},
+	}
 	var slotMu sync.Mutex
+	// the fee values the callers keep: numbers 700.., labels standard / data / none; never written by the harness again
+	keptLabels := []bt.FeeType{bt.FeeTypeStandard, bt.FeeTypeData, "", bt.FeeTypeStandard}
+	kept := make([]*bt.Fee, len(keptLabels))
+	keptFull := make([]uint64, len(kept))
+	for j := range kept {
+		kept[j] = mkFee(keptLabels[j], uint64(700+j))
+		keptFull[j] = fullOf(uint64(700+j), keptLabels[j])
+	}
 	time.Sleep(time.Microsecond) // the initial expiry (now) is strictly in the past from here on
 
-	objName := func(q *bt.FeeQuote) (string, uint64) {
+	objName := func(qi int, q *bt.FeeQuote) (string, uint64) {
 		if k, ok := known[q]; ok {
 			return fmt.Sprintf("q%d", k), uint64(k + 1)
 		}
-		return "anon", anonymous
+		return "anon" + fqsNames[qi], anonymous
+	}
+	// a write of fee (numbers id, label lb) under fee type ft of the object called nm
+	storeFee := func(nm string, ft bt.FeeType, id uint64, lb bt.FeeType) {
+		rc.store(nm+".fees."+string(ft), id)
+		rc.store(nm+".label."+string(ft), fullOf(id, lb))
+	}
+	rejectFee := func(nm string, ft bt.FeeType, id uint64, lb bt.FeeType, call string) {
+		rc.reject(nm+".fees."+string(ft), id, call)
+		rc.reject(nm+".label."+string(ft), fullOf(id, lb), call)
 	}
 
 	var wg sync.WaitGroup
@@ -329,19 +409,22 @@ func feeHistory(seed uint64) History {
 				q := quotes[k]
 				ft := feeTypes[gr.Intn(2)]
 				miner := miners[gr.Intn(3)]
-				switch c := gr.Intn(20); c {
+				qi := gr.Intn(2)
+				Q, QN := fqs[qi], fqsNames[qi]
+				switch c := gr.Intn(28); c {
 				case 0, 1:
 					rc.kind("FeeQuote.AddQuote")
-					rc.store(fmt.Sprintf("q%d.fees.%s", k, ft), id)
+					storeFee(fmt.Sprintf("q%d", k), ft, id, ft)
 					q.AddQuote(ft, mkFee(ft, id))
 				case 2, 3, 4:
 					rc.kind("FeeQuote.Fee")
 					f, err := q.Fee(ft)
 					if err != nil {
 						rc.badf("q%d.Fee(%s): %v", k, ft, err)
+						rc.read(fmt.Sprintf("q%d.fees.%s", k, ft), absent)
 						continue
 					}
-					rc.read(fmt.Sprintf("q%d.fees.%s", k, ft), feeID(f))
+					rc.read(fmt.Sprintf("q%d.label.%s", k, ft), feeFull(f))
 				case 5:
 					rc.kind("FeeQuote.UpdateExpiry")
 					sec := id
@@ -385,10 +468,9 @@ func feeHistory(seed uint64) History {
 					}
 				case 10:
 					rc.kind("FeeQuote.UnmarshalJSON")
-					body := fmt.Sprintf(`{"standard":{"miningFee":{"satoshis":%d,"bytes":%d},"relayFee":{"satoshis":%d,"bytes":%d}},"data":{"miningFee":{"satoshis":%d,"bytes":%d},"relayFee":{"satoshis":%d,"bytes":%d}}}`,
-						id, id, id, id, id+1, id+1, id+1, id+1)
-					rc.store(fmt.Sprintf("q%d.fees.standard", k), id)
-					rc.store(fmt.Sprintf("q%d.fees.data", k), id+1)
+					body := fmt.Sprintf(`{"standard":%s,"data":%s}`, feeDoc(id), feeDoc(id+1))
+					storeFee(fmt.Sprintf("q%d", k), bt.FeeTypeStandard, id, bt.FeeTypeStandard)
+					storeFee(fmt.Sprintf("q%d", k), bt.FeeTypeData, id+1, bt.FeeTypeData)
 					var err error
 					if gr.Bool() {
 						err = q.UnmarshalJSON([]byte(body))
@@ -401,46 +483,128 @@ func feeHistory(seed uint64) History {
 				case 11:
 					rc.kind("FeeQuotes.AddMiner")
 					slotMu.Lock()
-					slot[miner][fmt.Sprintf("q%d", k)] = true
+					slot[qi][miner][fmt.Sprintf("q%d", k)] = true
 					slotMu.Unlock()
-					rc.store("Q.quotes."+miner, uint64(k+1))
-					fqs.AddMiner(miner, q)
+					rc.store(QN+".quotes."+miner, uint64(k+1))
+					Q.AddMiner(miner, q)
 				case 12:
 					rc.kind("FeeQuotes.AddMinerWithDefault")
 					slotMu.Lock()
-					slot[miner]["anon"] = true
+					slot[qi][miner]["anon"+QN] = true
 					slotMu.Unlock()
-					rc.store("Q.quotes."+miner, anonymous)
-					fqs.AddMinerWithDefault(miner)
+					rc.store(QN+".quotes."+miner, anonymous)
+					Q.AddMinerWithDefault(miner)
 				case 13, 14:
 					rc.kind("FeeQuotes.Quote")
-					got, err := fqs.Quote(miner)
+					got, err := Q.Quote(miner)
 					if err != nil {
-						rc.read("Q.quotes."+miner, absent)
+						rc.read(QN+".quotes."+miner, absent)
 						continue
 					}
-					_, v := objName(got)
-					rc.read("Q.quotes."+miner, v)
+					_, v := objName(qi, got)
+					rc.read(QN+".quotes."+miner, v)
 				case 15, 16, 17:
 					rc.kind("FeeQuotes.Fee")
-					f, err := fqs.Fee(miner, ft)
+					f, err := Q.Fee(miner, ft)
 					if err != nil {
-						rc.read("Q.quotes."+miner, absent) // ErrMinerNoQuotes: the slot was empty
+						rc.read(QN+".quotes."+miner, absent) // ErrMinerNoQuotes: the slot was empty
 						if err != bt.ErrMinerNoQuotes {
-							rc.badf("Q.Fee(%s,%s): %v", miner, ft, err)
+							rc.badf("%s.Fee(%s,%s): %v", QN, miner, ft, err)
 						}
 						continue
 					}
-					rc.read("Q.fee."+miner+"."+string(ft), feeID(f))
-				default:
+					rc.read(QN+".label."+miner+"."+string(ft), feeFull(f))
+				case 18, 19:
 					rc.kind("FeeQuotes.UpdateMinerFees")
-					got, err := fqs.UpdateMinerFees(miner, ft, mkFee(ft, id))
+					got, err := Q.UpdateMinerFees(miner, ft, mkFee(ft, id))
 					if err != nil {
-						rc.read("Q.quotes."+miner, absent)
+						rc.read(QN+".quotes."+miner, absent)
 						continue
 					}
-					nm, _ := objName(got)
-					rc.store(nm+".fees."+string(ft), id)
+					nm, _ := objName(qi, got)
+					storeFee(nm, ft, id, ft)
+				case 20, 21:
+					// a fee value the caller keeps, stored once more: in another quote, under another fee type. What
+					// is stored is the value as the caller made it (the library's AddQuote does not relabel)
+					rc.kind("FeeQuote.AddQuote/kept-fee-value")
+					j := gr.Intn(len(kept))
+					storeFee(fmt.Sprintf("q%d", k), ft, uint64(700+j), keptLabels[j])
+					q.AddQuote(ft, kept[j])
+				case 22, 23:
+					rc.kind("FeeQuotes.UpdateMinerFees/kept-fee-value")
+					j := gr.Intn(len(kept))
+					got, err := Q.UpdateMinerFees(miner, ft, kept[j])
+					if err != nil {
+						rc.read(QN+".quotes."+miner, absent)
+						continue
+					}
+					nm, _ := objName(qi, got)
+					storeFee(nm, ft, uint64(700+j), keptLabels[j])
+				case 24, 25, 26:
+					// a write that FAILS: a document with a fee type the library does not know (next to good entries
+					// for the known ones), a cut-off document, an entry of the wrong shape. The call reports an error:
+					// nothing it carried may ever be read, and what was stored before stays readable
+					rc.kind("FeeQuote.UnmarshalJSON/rejected")
+					var body string
+					switch v := gr.Intn(6); v {
+					case 0:
+						body = fmt.Sprintf(`{"standard":%s,"data":%s,"bogus":%s}`, feeDoc(id), feeDoc(id+1), feeDoc(id+2))
+					case 1:
+						body = fmt.Sprintf(`{"bogus":%s,"data":%s,"standard":%s}`, feeDoc(id+2), feeDoc(id+1), feeDoc(id))
+					case 2:
+						body = fmt.Sprintf(`{"Standard":%s}`, feeDoc(id))
+					case 3:
+						full := fmt.Sprintf(`{"standard":%s,"data":%s}`, feeDoc(id), feeDoc(id+1))
+						body = full[:1+gr.Intn(len(full)-1)]
+					case 4:
+						body = fmt.Sprintf(`{"standard":%s,"data":{"miningFee":{"satoshis":"%d","bytes":1},"relayFee":7}}`, feeDoc(id), id+1)
+					default:
+						body = fmt.Sprintf(`{"standard":%s,"data":%d}`, feeDoc(id), id+1)
+					}
+					var err error
+					how := "UnmarshalJSON"
+					if gr.Bool() {
+						err = q.UnmarshalJSON([]byte(body))
+					} else {
+						how = "json.Unmarshal"
+						err = json.Unmarshal([]byte(body), q)
+					}
+					nm := fmt.Sprintf("q%d", k)
+					if err == nil {
+						// accepted after all (not this property's subject): then it stored what it carried
+						storeFee(nm, bt.FeeTypeStandard, id, bt.FeeTypeStandard)
+						storeFee(nm, bt.FeeTypeData, id+1, bt.FeeTypeData)
+						continue
+					}
+					call := fmt.Sprintf("%s of %s into q%d by goroutine %d (operation %d), which returned the error %q", how, body, k, gi, op, err.Error())
+					rejectFee(nm, bt.FeeTypeStandard, id, bt.FeeTypeStandard, call)
+					rejectFee(nm, bt.FeeTypeData, id+1, bt.FeeTypeData, call)
+				default:
+					// FeeQuotes.UpdateMinerFees with an empty argument: rejected, nothing stored
+					rc.kind("FeeQuotes.UpdateMinerFees/rejected")
+					var err error
+					var what string
+					switch gr.Intn(3) {
+					case 0:
+						what = fmt.Sprintf("UpdateMinerFees(%q, \"\", fee %d)", miner, id)
+						_, err = Q.UpdateMinerFees(miner, "", mkFee(ft, id))
+					case 1:
+						what = fmt.Sprintf("UpdateMinerFees(\"\", %q, fee %d)", ft, id)
+						_, err = Q.UpdateMinerFees("", ft, mkFee(ft, id))
+					default:
+						what = fmt.Sprintf("UpdateMinerFees(%q, %q, nil)", miner, ft)
+						_, err = Q.UpdateMinerFees(miner, ft, nil)
+					}
+					if err == nil {
+						rc.badf("%s.%s returned no error", QN, what)
+						continue
+					}
+					call := fmt.Sprintf("%s.%s by goroutine %d (operation %d), which returned the error %q", QN, what, gi, op, err.Error())
+					for kk := 0; kk < nq; kk++ {
+						for _, t := range feeTypes {
+							rejectFee(fmt.Sprintf("q%d", kk), t, id, ft, call)
+						}
+					}
 				}
 			}
 		}()
@@ -453,14 +617,30 @@ func feeHistory(seed uint64) History {
 	}
 	h.Race = newRaces()
 
+	// the fee values the callers kept are what they made them: storing a value does not change it
+	var keptBad []string // reported after the reads that show it
+	for j, f := range kept {
+		if got := feeFull(f); got != keptFull[j] {
+			keptBad = append(keptBad, fmt.Sprintf(tagArgument+"the fee value number %d the callers handed to AddQuote / UpdateMinerFees (fee %d labelled %q) reads %s after the history: storing a caller's value under a fee type changed the value, which is stored in other quotes / under other fee types too",
+				j, 700+j, keptLabels[j], showFull(got)))
+		}
+	}
+
 	// second phase, values rather than accesses: every fee type of every quote now has exactly ONE writer. What that
 	// writer stored and saw acknowledged is what it (and, once all have finished, anyone) reads back, whatever the
 	// writers of the other fee types of the same object do meanwhile (an update lost to a concurrent writer of another
-	// key is not a data race; only the values show it).
+	// key is not a data race; only the values show it). Every writer hands over ONE fee value of its own, relabelled by
+	// nobody: the same *Fee is stored under both fee types of the quote next to it (by that quote's two writers), so
+	// a store that writes into its argument shows as a value read where it was never stored.
 	{
 		var wg2 sync.WaitGroup
 		start2 := make(chan struct{})
 		last := make([][2]uint64, nq)
+		// own[k]: a fee value labelled "standard" that BOTH writers of quote k store, each under its own fee type
+		own := make([]*bt.Fee, nq)
+		for k := range own {
+			own[k] = mkFee(bt.FeeTypeStandard, uint64(40000000+k))
+		}
 		for k := range quotes {
 			for fi, ft := range feeTypes {
 				k, fi, ft := k, fi, ft
@@ -470,11 +650,19 @@ func feeHistory(seed uint64) History {
 					<-start2
 					for it := 0; it < 300; it++ {
 						id := uint64(50000000 + k*1000000 + fi*100000 + it)
-						quotes[k].AddQuote(ft, mkFee(ft, id))
-						last[k][fi] = id
+						fee, want := mkFee(ft, id), fullOf(id, ft)
+						if it%5 == 4 {
+							fee, want = own[k], fullOf(uint64(40000000+k), bt.FeeTypeStandard)
+						}
+						quotes[k].AddQuote(ft, fee)
+						last[k][fi] = want
 						f, err := quotes[k].Fee(ft)
-						if err != nil || feeID(f) != id {
-							rc.badf("q%d: Fee(%s) returned %d right after its only writer stored %d (error %v): an acknowledged write was lost", k, ft, feeID(f), id, err)
+						if err != nil || feeFull(f) != want {
+							tag := ""
+							if err == nil && feeID(f) == want/4 {
+								tag = tagArgument
+							}
+							rc.badf(tag+"q%d: Fee(%s) returned %s right after its only writer stored %s (error %v): an acknowledged write was lost or the stored value was changed", k, ft, showFull(feeFull(f)), showFull(want), err)
 							return
 						}
 					}
@@ -489,8 +677,8 @@ func feeHistory(seed uint64) History {
 		}
 		for k := range quotes {
 			for fi, ft := range feeTypes {
-				if f, err := quotes[k].Fee(ft); err != nil || feeID(f) != last[k][fi] {
-					rc.badf("q%d: after all writers finished Fee(%s) is %d, the last value stored is %d", k, ft, feeID(f), last[k][fi])
+				if f, err := quotes[k].Fee(ft); err != nil || feeFull(f) != last[k][fi] {
+					rc.badf("q%d: after all writers finished Fee(%s) is %s, the last value stored is %s", k, ft, showFull(feeFull(f)), showFull(last[k][fi]))
 				}
 			}
 		}
@@ -499,16 +687,108 @@ func feeHistory(seed uint64) History {
 		}
 	}
 
-	// allowed values of the derived locations Q.fee.<miner>.<ft>: whatever any object that was ever
+	// third phase, failing writes against a quiet background: nobody writes successfully any more, so every quote has ONE
+	// stored value per fee type; writers whose calls all FAIL (unknown fee type, cut-off document, wrong shape) run
+	// next to readers, and every read - during and after - has to return that one value.
+	{
+		want := make([][2]uint64, nq)
+		for k := range quotes {
+			for fi, ft := range feeTypes {
+				f, _ := quotes[k].Fee(ft)
+				want[k][fi] = feeFull(f)
+			}
+		}
+		var wg3 sync.WaitGroup
+		start3 := make(chan struct{})
+		stop3 := make([]int32, nq)
+		check := func(who string, k int) bool {
+			for fi, ft := range feeTypes {
+				f, err := quotes[k].Fee(ft)
+				if err != nil || feeFull(f) != want[k][fi] {
+					rc.badf(tagFailedWrite+"q%d: %s: Fee(%s) returned %s (error %v); the only value stored there is %s, and the only calls running are UnmarshalJSON calls that return an error", k, who, ft, showFull(feeFull(f)), err, showFull(want[k][fi]))
+					return false
+				}
+			}
+			return true
+		}
+		for k := range quotes {
+			k := k
+			wr := r.Fork()
+			wg3.Add(2)
+			go func() { // the failing writer of quote k
+				defer wg3.Done()
+				defer atomic.StoreInt32(&stop3[k], 1)
+				<-start3
+				for it := 0; it < 40; it++ {
+					id := uint64(60000000 + k*1000000 + it*4)
+					var body string
+					switch it % 4 {
+					case 0:
+						body = fmt.Sprintf(`{"standard":%s,"data":%s,"bogus":%s}`, feeDoc(id), feeDoc(id+1), feeDoc(id+2))
+					case 1:
+						body = fmt.Sprintf(`{"other":%s}`, feeDoc(id))
+					case 2:
+						full := fmt.Sprintf(`{"standard":%s,"data":%s}`, feeDoc(id), feeDoc(id+1))
+						body = full[:1+wr.Intn(len(full)-1)]
+					default:
+						body = fmt.Sprintf(`{"data":%s,"standard":[%d]}`, feeDoc(id+1), id)
+					}
+					var err error
+					if it%2 == 0 {
+						err = quotes[k].UnmarshalJSON([]byte(body))
+					} else {
+						err = json.Unmarshal([]byte(body), quotes[k])
+					}
+					if err == nil {
+						return // accepted: not this phase's subject, and the background is no longer quiet
+					}
+					if !check(fmt.Sprintf("right after UnmarshalJSON(%s) returned the error %q", body, err.Error()), k) {
+						return
+					}
+				}
+			}()
+			go func() { // a reader of quote k
+				defer wg3.Done()
+				<-start3
+				for it := 0; it < 600 && atomic.LoadInt32(&stop3[k]) == 0; it++ {
+					if !check("a concurrent reader", k) {
+						return
+					}
+				}
+			}()
+		}
+		rc.kind("failing-writes-only phase")
+		close(start3)
+		if !waitAll(&wg3, 30*time.Second) {
+			h.Deadlock = true
+			return h
+		}
+		if nr := newRaces(); nr != "" {
+			h.Race += nr
+		}
+	}
+
+	// allowed values of the derived locations Q.label.<miner>.<ft>: whatever any object that was ever
 	// in that slot held for that fee type
-	for _, m := range miners {
-		for _, ft := range feeTypes {
-			key := "Q.fee." + m + "." + string(ft)
-			for o := range slot[m] {
-				src := o + ".fees." + string(ft)
-				rc.store(key, init[src])
-				for v := range rc.stored[src] {
-					rc.store(key, v)
+	wasRead := map[KV]bool{}
+	for _, rd := range rc.reads {
+		wasRead[rd] = true
+	}
+	for qi, qn := range fqsNames {
+		for _, m := range miners {
+			for _, ft := range feeTypes {
+				key := qn + ".label." + m + "." + string(ft)
+				for o := range slot[qi][m] {
+					src := o + ".label." + string(ft)
+					rc.store(key, init[src])
+					for v := range rc.stored[src] {
+						rc.store(key, v)
+					}
+					for v, call := range rc.rejected[src] {
+						if wasRead[KV{key, v}] { // only what matters: a rejected value that WAS read through the FeeQuotes
+							rc.reject(key, v, call)
+						}
+					}
 				}
 			}
 		}
@@ -534,6 +814,23 @@ func feeHistory(seed uint64) History {
 		sort.Slice(vs, func(i, j int) bool { return vs[i] < vs[j] })
 		for _, v := range vs {
 			h.Stored = append(h.Stored, KV{k, v})
+		}
+	}
+	var rk []string
+	for k := range rc.rejected {
+		rk = append(rk, k)
+	}
+	sort.Strings(rk)
+	for _, k := range rk {
+		var vs []uint64
+		for v := range rc.rejected[k] {
+			if !rc.stored[k][v] {
+				vs = append(vs, v)
+			}
+		}
+		sort.Slice(vs, func(i, j int) bool { return vs[i] < vs[j] })
+		for _, v := range vs {
+			h.Rejected = append(h.Rejected, KV{k, v})
 		}
 	}
 	// reads: de-duplicated (the check is per distinct (location, value))
@@ -563,8 +860,34 @@ func feeHistory(seed uint64) History {
 		if rc.stored[rd.K][rd.V] {
 			continue
 		}
-		rc.bad = append(rc.bad, fmt.Sprintf("read of %s returned %d, which no write stored", rd.K, rd.V))
+		show := fmt.Sprint(rd.V)
+		if strings.Contains(rd.K, ".label.") {
+			show = showFull(rd.V)
+		} else if rd.V == absent {
+			show = "no entry"
+		}
+		if call, ok := rc.rejected[rd.K][rd.V]; ok {
+			rc.bad = append(rc.bad, fmt.Sprintf(tagFailedWrite+"read of %s returned %s: no write stored that; it is what a REJECTED call carried: %s", rd.K, show, call))
+			continue
+		}
+		// the numbers of a stored fee under a label no write gave it there: some store wrote into the caller's value
+		if strings.Contains(rd.K, ".label.") && rd.V != absent {
+			for v := range rc.stored[rd.K] {
+				if v/4 == rd.V/4 {
+					rc.bad = append(rc.bad, fmt.Sprintf(tagArgument+"read of %s returned %s; what was stored there is %s: the value the caller handed over was changed after it was stored (the same *Fee is stored in other quotes / under other fee types)", rd.K, show, showFull(v)))
+					show = ""
+					break
+				}
+			}
+			if show == "" {
+				continue
+			}
+		}
+		rc.bad = append(rc.bad, fmt.Sprintf("read of %s returned %s, which no write stored", rd.K, show))
 	}
+	rc.bad = append(rc.bad, keptBad...)
+	// the violations that name their cause first
+	sort.SliceStable(rc.bad, func(i, j int) bool { return strings.HasPrefix(rc.bad[i], "[") && !strings.HasPrefix(rc.bad[j], "[") })
 	h.Bad = rc.bad
 	return h
 }
@@ -582,7 +905,11 @@ func b2u(b bool) uint64 {
 type job struct {
 	kind string
 	opts func() []interpreter.ExecutionOptionFunc
-	spec *progSpec // the scripts and flags, for jobs built from a program
+	// fresh: option values made for one run alone (the sequential verdict of a job whose opts are values shared with
+	// other jobs); nil: opts
+	fresh func() []interpreter.ExecutionOptionFunc
+	desc  string
+	spec  *progSpec // the scripts and flags, for jobs built from a program
 	// for jobs over a signed transaction: the parts, so that the read-only probe can rebuild the job over other storage
 	tx   *bt.Tx
 	in   int
@@ -591,6 +918,9 @@ type job struct {
 }
 
 func (j job) describe() string {
+	if j.desc != "" {
+		return j.desc
+	}
 	if j.spec != nil {
 		return j.spec.describe()
 	}
@@ -669,16 +999,23 @@ func p2pkhJobs(r *common.Rand, sw *sharedWallet) []job {
 			amount++
 		}
 		prev := &bt.Output{Satoshis: amount, LockingScript: lock}
-		more := []interpreter.ExecutionOptionFunc{interpreter.WithAfterGenesis()}
+		fl := []interpgen.FlagOpt{optAfterGenesis}
 		if !legacy {
-			more = append(more, interpreter.WithForkID())
+			fl = append(fl, optForkID)
 		}
 		if strict {
-			more = append(more, interpreter.WithFlags(scriptflag.VerifyLowS|scriptflag.VerifyDERSignatures|scriptflag.VerifyStrictEncoding|scriptflag.VerifyNullFail|scriptflag.VerifyMinimalData))
+			fl = append(fl, interpgen.WF(uint32(scriptflag.VerifyLowS|scriptflag.VerifyDERSignatures|scriptflag.VerifyStrictEncoding|scriptflag.VerifyNullFail|scriptflag.VerifyMinimalData)))
 		}
-		jobs = append(jobs, job{kind: kind, tx: tx, in: i, prev: prev, more: more, opts: func() []interpreter.ExecutionOptionFunc {
+		more, freshMore := sw.flagOptions(fl...)
+		j := job{kind: kind, tx: tx, in: i, prev: prev, more: more, opts: func() []interpreter.ExecutionOptionFunc {
 			return append([]interpreter.ExecutionOptionFunc{interpreter.WithTx(tx, i, prev)}, more...)
-		}})
+		}}
+		if freshMore != nil {
+			j.fresh = func() []interpreter.ExecutionOptionFunc {
+				return append([]interpreter.ExecutionOptionFunc{interpreter.WithTx(tx, i, prev)}, freshMore()...)
+			}
+		}
+		jobs = append(jobs, j)
 	}
 	return jobs
 }
@@ -690,7 +1027,32 @@ type sharedWallet struct {
 	csAfter      *bscript.Script // what follows the OP_CODESEPARATOR of csLock
 	lock0, cs0   []byte
 	ms           []*bec.PrivateKey // the keys of the bare 2-of-3 multisig output script several transactions name
+	bank         *optBank          // when set: the flag options of the signed jobs are the round's shared values
 }
+
+// flagOptions: the options for these flags - out of the round's bank when the wallet has one (then fresh makes the
+// same options anew, for the sequential reference run), else built here.
+func (sw *sharedWallet) flagOptions(fl ...interpgen.FlagOpt) (opts []interpreter.ExecutionOptionFunc, fresh func() []interpreter.ExecutionOptionFunc) {
+	mk := func() []interpreter.ExecutionOptionFunc {
+		var out []interpreter.ExecutionOptionFunc
+		for _, o := range fl {
+			out = append(out, o.Option())
+		}
+		return out
+	}
+	if sw == nil || sw.bank == nil {
+		return mk(), nil
+	}
+	for _, o := range fl {
+		opts = append(opts, sw.bank.get(o))
+	}
+	return opts, mk
+}
+
+var (
+	optAfterGenesis = interpgen.FlagOpt{Named: "WithAfterGenesis", Word: interpgen.FGenesis}
+	optForkID       = interpgen.FlagOpt{Named: "WithForkID", Word: interpgen.FForkID}
+)
 
 func newSharedWallet(r *common.Rand) *sharedWallet {
 	sw := &sharedWallet{key: keyFor(r), keyB: keyFor(r), ms: []*bec.PrivateKey{keyFor(r), keyFor(r), keyFor(r)}}
@@ -757,10 +1119,21 @@ func codesepJobs(r *common.Rand, sw *sharedWallet) []job {
 	_ = unlock.AppendPushData(sigA)
 	tx.Inputs[0].UnlockingScript = unlock
 	prev := &bt.Output{Satoshis: sats, LockingScript: sw.csLock}
-	more := []interpreter.ExecutionOptionFunc{interpreter.WithAfterGenesis(), interpreter.WithForkID()}
-	return []job{{kind: kind, tx: tx, prev: prev, more: more, opts: func() []interpreter.ExecutionOptionFunc {
-		return []interpreter.ExecutionOptionFunc{interpreter.WithTx(tx, 0, prev), interpreter.WithAfterGenesis(), interpreter.WithForkID()}
-	}}}
+	return []job{signedJob(kind, tx, prev, sw)}
+}
+
+// signedJob: input 0 of tx under WithAfterGenesis + WithForkID (the round's shared values when the wallet has a bank).
+func signedJob(kind string, tx *bt.Tx, prev *bt.Output, sw *sharedWallet) job {
+	more, freshMore := sw.flagOptions(optAfterGenesis, optForkID)
+	j := job{kind: kind, tx: tx, prev: prev, more: more, opts: func() []interpreter.ExecutionOptionFunc {
+		return append([]interpreter.ExecutionOptionFunc{interpreter.WithTx(tx, 0, prev)}, more...)
+	}}
+	if freshMore != nil {
+		j.fresh = func() []interpreter.ExecutionOptionFunc {
+			return append([]interpreter.ExecutionOptionFunc{interpreter.WithTx(tx, 0, prev)}, freshMore()...)
+		}
+	}
+	return j
 }
 
 // multisigJobs: a 2-of-3 bare multisig output spent by a one-input transaction, with keys no execution of this
@@ -867,6 +1240,19 @@ func verdict(e interpreter.Engine, j job) (ok bool) {
 	return e.Execute(j.opts()...) == nil
 }
 
+// seqVerdict: the reference verdict - a run with option values of its own where the job's options are shared values
+func seqVerdict(e interpreter.Engine, j job) (ok bool) {
+	if j.fresh == nil {
+		return verdict(e, j)
+	}
+	defer func() {
+		if rec := recover(); rec != nil {
+			ok = false
+		}
+	}()
+	return e.Execute(j.fresh()...) == nil
+}
+
 // engineRound: units of jobs; a unit is all inputs of ONE transaction (or one script pair). With
 // sameTx=false every unit is validated by exactly one goroutine ("different transactions from many
 // goroutines", the property); with sameTx=true the inputs of one transaction are spread over
@@ -880,8 +1266,11 @@ func engineRound(seed uint64, sameTx bool, index int, pl *pool) EngineRound {
 	var jobs []job
 	var unit []int // unit index of every job
 	var sw *sharedWallet
+	var bank *optBank
 	if !sameTx {
 		sw = newSharedWallet(r)
+		bank = newOptBank()
+		sw.bank = bank
 	}
 	target := g * (1 + r.Intn(3))
 	nu0 := 0
@@ -914,6 +1303,8 @@ func engineRound(seed uint64, sameTx bool, index int, pl *pool) EngineRound {
 		var units [][]job
 		units = append(units, contractUnits(r, index, 7, shared)...)
 		units = append(units, pl.programUnits(r, 40, shared)...)
+		// the round's option values, shared: programs sensitive to one flag, under the word with and without it
+		units = append(units, pl.flagTwinUnits(r, index, 14, bank, shared, true)...)
 		msLock := shared.add("bare 2-of-3 multisig", heapScript(multisigLockBytes(sw.ms)))
 		for k := 0; k < 2; k++ {
 			units = append(units, signedTailJobs(r, sw, heapScript))
@@ -936,6 +1327,9 @@ func engineRound(seed uint64, sameTx bool, index int, pl *pool) EngineRound {
 	if sw != nil {
 		out.Shared += 2 // the P2PKH and the OP_CODESEPARATOR script objects of the round's wallet
 	}
+	if bank != nil {
+		out.OptionValues = bank.sharedValues()
+	}
 	kinds := map[string]bool{}
 	for _, j := range jobs {
 		kinds[j.kind] = true
@@ -952,7 +1346,7 @@ func engineRound(seed uint64, sameTx bool, index int, pl *pool) EngineRound {
 		seqEngine := interpreter.NewEngine()
 		out.Sequential = make([]bool, len(jobs))
 		for i, j := range jobs {
-			out.Sequential[i] = verdict(seqEngine, j)
+			out.Sequential[i] = seqVerdict(seqEngine, j)
 		}
 	}
 	coldStart := seed%2 == 0 && !sameTx
